@@ -80,9 +80,8 @@ func (o *Op) String() string {
 	if o.Kind == KOpenFile {
 		s += fmt.Sprintf(",flag=%#x", o.Flag)
 	}
-	if o.Len > 0 {
-		s += fmt.Sprintf(",len=%d", o.Len)
-	}
+	// the length of a write is deliberately not part of the label: labels are compared across processes by
+	// the replay assertion, and contents may embed process-dependent text (time.Time's monotonic reading)
 	s += ")"
 	return s
 }
